@@ -1,5 +1,5 @@
 #!/usr/bin/env python3
-"""Write seeded/<id>-<k>/meta.json for the second-round seeds from README.md, the
+"""Write seeded/<id>-<k>/meta.json for the second- and third-round seeds from README.md, the
 seed_verify log and the files seed_check left in the directory."""
 import json, os, re, sys, glob
 root = '/verif/seeded'
@@ -11,8 +11,20 @@ first_missed = {  # seeds the checks missed (or reported without a concrete inpu
  'C08-4': 'MISSED by C08 as it stood (governance params never made a zero price legal); degenerate params (min price 0, airdrop price 0, tiny limits) added to the creation probes, detected since',
  'C20-3': 'MISSED by C20 as it stood (factory migrations carried no params message); migrations with every subset of optional params from pairwise-distinct stored values and a frame theorem were added, detected since',
  'C16-3': 'reported by C16 as it stood only in the no-failing-input-found form (8 correspondence disagreements on non-ASCII texts, no monitor hit); near-miss-digest signatures by the listed key and multi-byte claim texts added, a concrete replay is produced since',
+ # third round
+ 'C02-5': 'reported by C02 as it stood only in the no-failing-input-found form (C07 gave a concrete replay); C02 monitors now take the price in force from the harness ledger of the principals\' operations, concrete replay since',
+ 'C04-5': 'MISSED by C04 as it stood (whitelist answers were an oracle and no history changed a whitelist after attaching it; C11 and C13 caught it); whitelist admin operations in the C04 histories and an independent ledger of intended membership, detected since',
+ 'C05-6': 'MISSED by C05 (and C20, C18) as they stood (no Migrate among the user messages; no governance-set status before a migration); Migrate rows for every contract from governance-set states and stored versions, status/params-changed-by-user-message monitors, C20 grid with governance as a life-stage dimension; detected by C05 and C20 since',
+ 'C06-5': 'MISSED by C06 as it stood (only the sg1 functions were driven; C08 caught it); call-site layer FeeSites + world-level monitors on every fee-disposing call site, detected since',
+ 'C06-6': 'MISSED by C06 as it stood (C16 caught it: the harness keeper refuses the wrong signer); call-site layer, detected since',
+ 'C07-5': 'MISSED by C07 as it stood (the governance minimum was read back from the factory; C18 caught it); governance proposals inside the price histories and a ledger of what governance supplied, detected by C07 and C08 since',
+ 'C08-5': 'MISSED by C08 as it stood (allow-list read back from the factory; C18 caught it); allow-list proposal sequences before creation and a ledger of the intended allow-list, detected since',
+ 'C09-5': 'MISSED by C09 as it stood (no migrate in collection histories; C20 caught it); Migrate steps over the cw2 grid in C09/C10 histories and the model, detected since',
+ 'C10-5': 'reported by C10 as it stood only in the no-failing-input-found form; Migrate steps between royalty updates, cadence monitor sees two raises inside 24 h, concrete replay since',
+ 'C11-6': 'MISSED by C11 as it stood (no flex member had mint count 0); boundary mint counts on both flex kinds, row-is-member theorems, detected since',
+ 'C14-5': 'MISSED by C14 as it stood (its migrate probe used the stored version, which returns early; C20 caught it); migrate steps over the cw2 grid in both Merkle whitelist histories and the minter world, membership sweep after every step, detected since',
 }
-for d in sorted(glob.glob(root + '/C*-[34]')):
+for d in sorted(glob.glob(root + '/C*-[3456]')):
     sid = os.path.basename(d); prop = sid.split('-')[0]
     readme = open(d + '/README.md').read()
     title = readme.splitlines()[0].lstrip('# ').strip()
@@ -21,7 +33,7 @@ for d in sorted(glob.glob(root + '/C*-[34]')):
     v = re.findall(r'^%s: (.*)$' % re.escape(sid), log, re.M)
     ev = sorted(os.path.basename(f) for f in glob.glob(d + '/detected-*'))
     meta = {
-      'property': prop, 'round': 2, 'title': title, 'needs_to_manifest': needs,
+      'property': prop, 'round': (int(sid.split('-')[1]) + 1) // 2, 'title': title, 'needs_to_manifest': needs,
       'confirmed_by_lead': {
         'command': 'tools/seed_verify.sh <dir> <scratch /repo worktree at c2c314c>  (cargo test --workspace --no-fail-fast --offline: patch only / patch+demo / demo only)',
         'result': sid + ': ' + (v[-1] if v else 'NOT VERIFIED')},
